@@ -142,7 +142,7 @@ def run_property(repo: Repo, pid: str, tier: str, seed: int, verbose: bool = Fal
         from .selftest import run_selftest
         extra["selftest"] = run_selftest(pid, seed)
     for o in known_hits:
-        print(f"KNOWN-FINDING: property={pid} {o.rule} {o.where} {o.key} -- {o.msg}")
+        print(f"KNOWN-FINDING: property={pid} {o.rule} {o.where} {o.key}{' [' + o.code + ']' if o.code else ''} -- {o.msg}")
     for i, o in enumerate(violations):
         p = write_replay(pid, i, o)
         print(f"VIOLATION property={pid} replay={p}")
